@@ -214,6 +214,8 @@ def _configs(tier, salts):
                             depth, letters = 2, ["x0.3", "x3", "x1e3"]
                         out.append((cfg, {"depth": depth, "letters": letters}))
         if salt == 0 or (tier == "thorough" and salt == 1):
+            out += cfgs.linalg_fault_cfgs(salt, tier, extra_up=DIAG)     # radii and table across linear-algebra recoveries
+        if salt == 0 or (tier == "thorough" and salt == 1):
             for name, cfg in cfgs.broad_cfgs(salt=salt, budgets=(12, 40, 90), extra_up=DIAG, reg_budgets=(8,), overlays=("avg", "soft")):
                 depth = 1 if (tier == "thorough" and cfg.get("memo", True) and cfg["maxfun"] == 40 and "reg" not in cfg["broad_flags"]) else 0
                 out.append((dict(cfg, tag_mode=cfg["tag_mode"]), {"depth": depth, "letters": ["x0.3", "x3", "x1e3"]}))
